@@ -14,4 +14,8 @@ scoped instance (priority := 100) fieldNum {K : Type} [Field K] : Num K :=
 
 @[simp] theorem ofInt_eq {K : Type} [Field K] (i : Int) : (Num.ofInt i : K) = (i : K) := rfl
 
+/-- float literals of the source (`0.5` is read as the exact rational `1/2`) -/
+@[simp] theorem ofFrac_eq {K : Type} [Field K] (p : Int) (q : Nat) : (Num.ofFrac p q : K) = (p : K) / (q : K) := by
+  simp [Num.ofFrac]
+
 end C17Num
